@@ -169,13 +169,50 @@ const ORDERS_CALL2_DEEP = [['c1', 'i1', 'i1', 'c2', 'i2', 'i2'], ['c1', 'c2', 'i
 const ORDERS_PAIR_DEEP = [['c', 'i1', 'i1', 'i2'], ['c', 'i2', 'i1', 'i2', 'i1']];
 const ORDERS_PAIR = [['c', 'i1', 'i2'], ['c', 'i2', 'i1']];
 
+// Where the statement leaves the *merge* of two sources of slots open (abstain), what each source contributes is
+// still fixed: the entries of an object-literal child, of a passed-through runtime slots object and of `v-slots`
+// must all reach the component (whichever wins for a key both define).
+function weakJudge(c, r) {
+  const viol = [];
+  const env = makeEnv(c);
+  const ctx = { names: env.names, flags: false };
+  let obs = 'weak';
+  withModule(r.eval_js, env, (out, rec, loadError) => {
+    if (loadError) { viol.push({ clause: 'load', diff: 'exception:' + loadError.name, msg: errStr(loadError) }); return; }
+    const mode = CTX[c.ctx].mode;
+    env.st.createQueue = [env.answers[0], env.answers[1]];
+    let vn;
+    try {
+      if (mode === 'call2') { out.setSl(env.answers[0]); globalThis.usl = env.answers[0]; env.st.createQueue = [env.answers[0]]; vn = out.mk(); }
+      else vn = (mode === 'pair' ? out.pair() : out.vs)[0];
+    } catch (e) { viol.push({ clause: 'run', diff: 'exception:' + (e && e.name), msg: errStr(e) }); return; }
+    let o;
+    try { o = canonValue(vn, ctx, []); } catch (e) { viol.push({ clause: 'run', diff: 'exception:' + (e && e.name), msg: errStr(e) }); return; }
+    const slots = o && o.children && o.children.slots;
+    const need = new Set();
+    if (c.vslots === 'ident' || c.vslots === 'obj' || c.vslots === 'objDefault') need.add('foo');
+    if (c.shape === 'objlit') { need.add('default'); need.add('named'); }
+    const runtimeDecided = ['ident', 'uident', 'call'].includes(SHAPES[c.shape].dyn);
+    if (runtimeDecided && c.kind === 'slotsObj' && c.eos) { need.add('default'); need.add('named'); }
+    const passedFn = runtimeDecided && c.kind === 'fn' && c.eos; // a slot function passed through as the children: nothing to look into
+    if (c.shape !== 'none' && !SHAPES[c.shape].empty && !passedFn) need.add('default');
+    if (!passedFn) {
+      const have = slots ? Object.keys(slots) : [];
+      const missing = [...need].filter((k) => !have.includes(k));
+      if (missing.length) viol.push({ clause: 'slots-weak', diff: 'slots:entry-missing', msg: `slot entries [${missing}] do not reach the component`, expected: [...need], observed: have });
+    }
+    obs = 'weak:' + stable(slots ? Object.keys(slots).sort() : null);
+  });
+  return { viol, obs, clauses: ['slots-weak'] };
+}
+
 function judge(c, resps) {
   const r = resps[0];
   if (r.parse_error) return { engineError: 'generated case does not parse: ' + r.parse_error };
   // a well-formed input of this space for which the transform panics or kills its process has no output that could satisfy the property
   if (r.panic || r.died) return { viol: [{ clause: 'transform-failed', diff: r.panic ? 'panic' : 'process-died', msg: r.panic ? `panic in ${r.panic.stage}: ${r.panic.msg}` : 'the transform killed its process' }], obs: 'transform-failed' };
   if (r.hang || !r.eval_js) return { skip: true };
-  if (abstain(c)) return { skip: true };
+  if (abstain(c)) return weakJudge(c, r);
   const viol = [];
   const obsAll = [];
   const mode = CTX[c.ctx].mode;
